@@ -75,14 +75,15 @@ class PGen:
         self.inject = inject
         self.injected = False
         self.small = rnd.random() < 0.6      # small constants keep more steps inside the domain
+        self.big_consts = cls == 'main' and rnd.random() < 0.15
 
     def build(self, name):
         rnd, p = self.rnd, self.p
         p.name = name
         for i in range(rnd.randint(1, 3)):
-            p.ins.append(('i%d' % i, rnd.choice(WIDTHS_IN)))
+            p.ins.append(('i%d' % i, 32 if self.big_consts and i == 0 else rnd.choice(WIDTHS_IN)))
         for i in range(rnd.randint(1, 2)):
-            p.outs.append(('o%d' % i, rnd.choice(WIDTHS_OUT)))
+            p.outs.append(('o%d' % i, 32 if self.big_consts else rnd.choice(WIDTHS_OUT)))
         if p.kind == 'clock':
             for i in range(rnd.randint(0, 2)):
                 p.states.append(('s%d' % i, rnd.choice([0, 0, 1, 3, rnd.randint(0, 9)])))
@@ -111,6 +112,10 @@ class PGen:
     def leaf(self):
         rnd, p = self.rnd, self.p
         r = rnd.random()
+        if self.big_consts and r < 0.12:
+            # constants at and around 2**31 / 2**32 - 1 (still 32-bit patterns)
+            self.p.features.add('big_const')
+            return str(rnd.choice([0x80000000, 0x80000001, 0x7FFFFFFF, 0xFFFFFFFF, 0xC0000000, 0x80000000 + rnd.getrandbits(8), 1 << 30]))
         if r < 0.3:
             return str(rnd.randint(0, 9 if self.small else 255))
         if r < 0.6 or not (p.states or p.locals or p.consts):
@@ -354,7 +359,7 @@ def transpile(obj):
         return py4hw.VerilogGenerator(obj).getVerilogForHierarchy()
 
 
-def cosim_behavioural(obj, hw, ins, outs, state_names, vectors, sequential, text=None):
+def cosim_behavioural(obj, hw, ins, outs, state_names, vectors, sequential, text=None, as_instance=False, watch=()):
     """ins/outs: lists of wires. Returns Result."""
     res = Result()
     if text is None:
@@ -371,7 +376,7 @@ def cosim_behavioural(obj, hw, ins, outs, state_names, vectors, sequential, text
         'undeclared_identifier', 'duplicate_declaration', 'module_defined_twice', 'wire_assigned_procedurally', 'reg_driven_continuously',
         'multiple_drivers', 'param_no_default')]
     import py4hw.rtl_generation as rg
-    top = rg.getVerilogModuleName(obj, noInstanceNumber=True)
+    top = rg.getVerilogModuleName(obj, noInstanceNumber=not as_instance)
     if bad or top not in d.mods:
         res.status = 'invalid_text'
         res.detail = repr(bad[0]) if bad else 'module %s not emitted' % top
@@ -444,6 +449,11 @@ def cosim_behavioural(obj, hw, ins, outs, state_names, vectors, sequential, text
             else:
                 it.settle()
             res.steps += 1
+            # unbounded Python integers can grow without limit (s *= s every cycle): stop before arithmetic becomes the workload
+            if any(isinstance(v, int) and abs(v) >= (1 << 63) for o in (obj,) + tuple(watch) for v in vars(o).values()):
+                res.skipped += 1
+                res.detail = 'python state left the domain (>= 2**63)'
+                break
             if it.domain_exits != d0 or it.x_events != x0:
                 res.skipped += 1
                 if sequential:
@@ -684,6 +694,40 @@ def run_generated(run, d, idx, seed, n_cycles):
         run.count('construct_error')
         return
     vecs = vectors_for(ins, rnd, n_cycles, g.small)
+    if cls == 'main' and prog.consts and idx % 3 == 0:
+        # two instances of one class with different constructor constants, transpiled by one generator inside one parent:
+        # each instance must get the text (and behaviour) of its own constants
+        try:
+            hw = py4hw.HWSystem()
+            with muted():
+                holder = type('Holder', (py4hw.Logic,), {})(hw, 'holder')
+                objs, wires = [], []
+                for k in range(2):
+                    i2 = [hw.wire('%s_%d' % (n, k), w) for n, w in prog.ins]
+                    o2 = [hw.wire('%s_%d' % (n, k), w) for n, w in prog.outs]
+                    consts = [v if k == 0 else v + 1 + (idx % 5) for _, v in prog.consts]
+                    objs.append(C(holder, 'g%d' % k, *i2, *o2, *consts))
+                    wires.append((i2, o2))
+                    for w_ in i2:
+                        holder.addIn(w_.name, w_)
+                    for w_ in o2:
+                        holder.addOut(w_.name, w_)
+                text = py4hw.VerilogGenerator(holder).getVerilogForHierarchy()
+            which = 1 if rnd.random() < 0.7 else 0
+            i2, o2 = wires[which]
+            v2 = [{w_.name: v.get(n, 0) for (n, _), w_ in zip(prog.ins, i2)} for v in vecs]
+            res = cosim_behavioural(objs[which], hw, i2, o2, [n for n, _ in prog.states], v2, kind == 'clock', text=text, as_instance=True,
+                                    watch=(objs[1 - which],))
+            run.count('pair_instances')
+            judge(run, name + '/pair', 'main_pair', kind, res, dict(case, pair=True, which=which), stable_hash([src.replace(name, 'G'), 'pair']))
+            return
+        except Exception as e:
+            run.count('pair_build_failed')
+            hw = py4hw.HWSystem()
+            with muted():
+                ins = [hw.wire(n, w) for n, w in prog.ins]
+                outs = [hw.wire(n, w) for n, w in prog.outs]
+                obj = C(hw, 'g', *ins, *outs, *[v for _, v in prog.consts])
     res = cosim_behavioural(obj, hw, ins, outs, [n for n, _ in prog.states], vecs, kind == 'clock')
     judge(run, name, cls, kind, res, case, stable_hash(src.replace(name, 'G')))
 
